@@ -1,6 +1,7 @@
 package vc
 
 import (
+	"sort"
 	"fmt"
 	"go/ast"
 	"go/types"
@@ -662,7 +663,13 @@ func (e *Exec) contractLoopInvs(fr *Frame, h *ssa.BasicBlock, li *loopInfo, phis
 	if c == nil || fr.parent != nil {
 		return
 	}
-	for key, cls := range c.Loops {
+	var lks []string
+	for key := range c.Loops {
+		lks = append(lks, key)
+	}
+	sort.Strings(lks)
+	for _, key := range lks {
+		cls := c.Loops[key]
 		if !strings.Contains(li.key, key) {
 			continue
 		}
